@@ -5,6 +5,7 @@ Answers come from the executable model only.  Import-free apart from model files
 import WowVerif.Model.DateTime
 import WowVerif.Model.Flag
 import WowVerif.Model.Enum
+import WowVerif.Model.Frame
 namespace WowVerif.Driver
 
 def fnvStep (h : UInt64) (x : UInt64) : UInt64 := (h ^^^ x) * 0x100000001b3
@@ -243,6 +244,83 @@ def enumSpec (ws : List String) : String :=
     | _, _, _, _ => "bad-op"
   | _ => "bad-op"
 
+/-! ## framing -/
+def hexDigit (n : Nat) : Char := if n < 10 then Char.ofNat (48 + n) else Char.ofNat (87 + n)
+def hexOf (bs : List UInt8) : String :=
+  String.ofList (bs.flatMap fun x => [hexDigit (x.toNat / 16), hexDigit (x.toNat % 16)])
+def unhexDigit (c : Char) : Option Nat :=
+  if '0' ≤ c ∧ c ≤ '9' then some (c.toNat - 48) else if 'a' ≤ c ∧ c ≤ 'f' then some (c.toNat - 87)
+  else if 'A' ≤ c ∧ c ≤ 'F' then some (c.toNat - 55) else none
+def unhex (s : String) : Option (List UInt8) :=
+  if s == "-" then some [] else
+  let rec go : List Char → Option (List UInt8)
+    | [] => some []
+    | [_] => none
+    | a :: c :: r => do let x ← unhexDigit a; let y ← unhexDigit c; let t ← go r; pure (UInt8.ofNat (x * 16 + y) :: t)
+  go s.toList
+
+def patBody (len fill : Nat) : List UInt8 := (List.range len).map fun i => UInt8.ofNat (fill + i % 251)
+
+open Frame in
+def parseExp : String → Option Exp
+  | "vanilla" => some .vanilla | "tbc" => some .tbc | "wrath" => some .wrath | _ => none
+open Frame in
+def parseDir : String → Option Dir
+  | "client" => some .client | "server" => some .server | _ => none
+open Frame in
+def parseApi : String → Option Api
+  | "enum" => some .opcodeEnum | "expect" => some .expect | _ => none
+open Frame in
+def wardenOp (d : Dir) : Nat := match d with | .server => 0x2e6 | .client => 0x2e7
+
+open Frame in
+def wframe (e : Exp) (d : Dir) (len fill : Nat) : String :=
+  let body := patBody len fill
+  match writeFrame e d (wardenOp d) body with
+  | .ok v =>
+    let hl := v.length - len
+    s!"ok hdr={hexOf (v.take hl)} total={v.length} bodyok={if v.drop hl == body then 1 else 0}"
+  | .error _ => "abort panic"
+
+open Frame in
+/-- the WARDEN_DATA body codec: `u8[-]`, at most 65535 bytes -/
+def wardenRead (api : Api) (e : Exp) (d : Dir) (bs : List UInt8) : Except String (List UInt8 × List UInt8) :=
+  match readFrame api e d bs with
+  | .error _ => .error "err io"
+  | .ok ((op, body), rest) =>
+    if op != wardenOp d then .error s!"err opcode {op} {body.length}"
+    else if body.length > 65535 then .error "err parse size"
+    else .ok (body, rest)
+
+open Frame in
+def rframe (e : Exp) (d : Dir) (api : Api) (hdr : List UInt8) (len fill extra : Nat) : String :=
+  let body := patBody len fill
+  let stream := hdr ++ body ++ List.replicate extra 0xEE
+  match wardenRead api e d stream with
+  | .ok (got, rest) => s!"ok op={wardenOp d} bodylen={got.length} bodyok={if got == body then 1 else 0} consumed={stream.length - rest.length}"
+  | .error msg => msg
+
+open Frame in
+def seqFrames (e : Exp) (d : Dir) (api : Api) (lens : List Nat) : String :=
+  let bodies := (List.range lens.length).zip lens |>.map fun (i, l) => patBody l i
+  match writeAll e d (bodies.map fun bd => (wardenOp d, bd)) with
+  | none =>
+    -- report the first message whose write aborts
+    match (List.range bodies.length).zip bodies |>.find? (fun (_, bd) => match writeFrame e d (wardenOp d) bd with | .ok _ => false | .error _ => true) with
+    | some (i, _) => s!"write-failed {i} abort panic"
+    | none => "write-failed ?"
+  | some stream =>
+    let rec go (fuel : Nat) (todo : List (List UInt8)) (cur : List UInt8) (acc : String) : String :=
+      match fuel, todo with
+      | _, [] => acc ++ s!" end={stream.length}"
+      | 0, _ => acc
+      | fuel + 1, bd :: r =>
+        match wardenRead api e d cur with
+        | .ok (got, rest) =>
+          go fuel r rest (acc ++ s!" {got.length}{if got == bd then "" else "!"}@{stream.length - rest.length}")
+        | .error msg => acc ++ s!" then {msg} at ?"
+    go (bodies.length + 1) bodies stream "ok"
+
 def handle (ws : List String) : String :=
   match ws with
   | ["dt", n] => match n.toNat? with
@@ -257,6 +335,18 @@ def handle (ws : List String) : String :=
   | ["dtfields", a, b] => match a.toNat?, b.toNat? with
       | some lo, some hi => let (h, k) := dtFieldSweep lo hi; s!"digest {h} ok={k}"
       | _, _ => "bad-op"
+  | ["wframe", e, d, len, fill] =>
+      match parseExp e, parseDir d, len.toNat?, fill.toNat? with
+      | some e, some d, some len, some fill => wframe e d len fill
+      | _, _, _, _ => "bad-op"
+  | ["rframe", e, d, api, hdr, len, fill, extra] =>
+      match parseExp e, parseDir d, parseApi api, unhex hdr, len.toNat?, fill.toNat?, extra.toNat? with
+      | some e, some d, some api, some hdr, some len, some fill, some extra => rframe e d api hdr len fill extra
+      | _, _, _, _, _, _, _ => "bad-op"
+  | ["seq", e, d, api, lens] =>
+      match parseExp e, parseDir d, parseApi api, (lens.splitOn ",").mapM (·.toNat?) with
+      | some e, some d, some api, some lens => seqFrames e d api lens
+      | _, _, _, _ => "bad-op"
   | "enumck" :: rest => enumCk rest
   | "enumspec" :: rest => enumSpec rest
   | "flagspec" :: w :: zav :: raw :: rhs :: ens =>
